@@ -55,6 +55,11 @@ CHECKS = {
         "Exploration: every token string up to 3-4 tokens (sentences, non-sentences, junk) of every generated grammar is rendered with two independently generated layout patterns (whitespace; line and nested block comments under a LAYOUT rule) and parsed by LR and GLR: acceptance, LR result, the set of position-free GLR trees and the index of the offending token must agree; for ws grammars an equivalent LAYOUT rule (4 formulations) must give identical trees, node positions, layout_content and error positions.",
         "Trusted: the renderer never changes token boundaries (single-character terminals or forced separators). Messages/tokens_ahead are not compared between ws and LAYOUT parsers.",
         "DESIGN.md section 6/C14"),
+    "C15": (
+        "model-based PBT over generated operation histories (build Parser/GLRParser with varying tables/recovery/strictness, failing builds, parses that fail, recover, or raise from user actions/recognizers) on one shared Grammar object; every operation is compared with the same operation on freshly built objects",
+        "Exploration: generated histories of 3-14 operations over one Grammar (random small grammars, optionally with a comment LAYOUT rule, optionally with an unproductive rule so that every build fails) and a pool of parser instances; after every step the outcome (build result or exception type; parse result / forest trees and call_actions values / exception type, position and expected symbols / recovered error spans) must equal that of the same operation on a fresh Grammar and parser; the thorough tier additionally replays every operation on fresh objects in a fresh interpreter process (module globals).",
+        "Trusted: all parsers of a history get the same actions (precondition of the property). LR parses that do not terminate within 1 s are skipped and counted (termination is not this property's subject).",
+        "DESIGN.md section 6/C15"),
     "C16": (
         "differential PBT across subprocesses started with different PYTHONHASHSEED values (and a repeated run with the same seed): tables, action order, .pgc bytes, conflict reports, LR results and forests must be identical",
         "Exploration: generated batches of grammars (random small grammars, many terminals whose names differ in one character inside one lookahead set, ambiguous operator grammars, multi-file grammars whose imported files define terminals of the same name) are built in fresh interpreter processes under hash seeds 0,1,2,3 (12 seeds in the thorough tier): sha256 of the serialised table for LR/GLR x LALR/SLR, per-state action order, bytes of the written .pgc, conflict reports as (state, terminal, productions), LR results and the first 25 forest trees in index order (to_str) must be equal in every process.",
